@@ -2,6 +2,7 @@ SPECIFICATION Spec
 CONSTANTS
   MaxInline = 22
   Lens = {0, 1, 3, 21, 22, 23, 1024}
+  StaticLens = {0, 1, 3, 21, 22, 23}
   SkipValidate = {}
   OrdByForm = TRUE
 INVARIANTS ExistsIffValid CompareByContent
